@@ -10,3 +10,4 @@ from . import cdl            # noqa: F401
 from . import wchar          # noqa: F401
 from . import dl             # noqa: F401
 from . import errno_         # noqa: F401
+from . import compare        # noqa: F401
